@@ -697,7 +697,26 @@ func (e *Engine) verifyLemma(lm *Lemma) *FuncReport {
 			}
 		}
 		irq := tAnd(irqs...)
-		ihT := tForall(qv, tImp(irq, ien))
+		// the lemma's pattern (if any) also triggers the induction hypothesis (when it binds every generalized variable)
+		var ihPats []string
+		if len(qv) > 0 && len(lm.Pattern) > 0 {
+			var ps []string
+			penv := mkEnv(ih)
+			for _, p := range lm.Pattern {
+				ps = append(ps, penv.eval(p).(Sc).T)
+			}
+			joined := strings.Join(ps, " ")
+			all := true
+			for _, v := range qv {
+				if !strings.Contains(joined, v[0]) {
+					all = false
+				}
+			}
+			if all {
+				ihPats = []string{joined}
+			}
+		}
+		ihT := tForall(qv, tImp(irq, ien), ihPats...)
 		stepCond := tGt(v.T, lm.From)
 		c.facts = c.facts[:nf]
 		c.assume(tTrue, rq)
@@ -807,8 +826,10 @@ func (e *Engine) smtText(o *Oblig, extra string, splitCase string) string {
 		// key!N(k0..) is the base-256 number of its (byte) arguments: injective on bytes; kept as a symbol so
 		// that quantified facts can be triggered on it
 		b.WriteString(fmt.Sprintf("(declare-fun %s (%s) Int)\n", kn, strings.Join(sorts, " ")))
-		b.WriteString(fmt.Sprintf("(assert (forall (%s) (! (= (%s %s) %s) :pattern ((%s %s)))))\n",
-			strings.Join(vars, " "), kn, strings.Join(args, " "), val, kn, strings.Join(args, " ")))
+		// stated as two inequalities: z3 turns "forall k. f(k) = t" into a macro and eliminates f, after which
+		// quantified hypotheses triggered on f (a symmetric matrix: m[key(x,y)] == m[key(y,x)]) can no longer fire
+		b.WriteString(fmt.Sprintf("(assert (forall (%s) (! (and (<= (%s %s) %s) (>= (%s %s) %s)) :pattern ((%s %s)))))\n",
+			strings.Join(vars, " "), kn, strings.Join(args, " "), val, kn, strings.Join(args, " "), val, kn, strings.Join(args, " ")))
 		for i := 0; i < n; i++ {
 			div := int64(1)
 			for j := i + 1; j < n; j++ {
